@@ -692,7 +692,7 @@ def arm_preempt(res, rng, bts, tier):
     from .. import monitors as M
     cap = 80 if tier == 'quick' else 600
     # the arm has its own share of the shard's time (thread hand-offs make a schedule cost milliseconds)
-    if PREEMPT_SPENT[0] > float(os.environ.get('VERIF_C12_PREEMPT_BUDGET', 8.0 if tier == 'quick' else 240.0)):
+    if PREEMPT_SPENT[0] > float(os.environ.get('VERIF_C12_PREEMPT_BUDGET', 14.0 if tier == 'quick' else 240.0)):
         return
     t_start = time.time()
     jobs = [(bt, m) for bt, m in ((bt, build_menu(rng, bt)) for bt in bts) if m]
@@ -759,6 +759,105 @@ def arm_preempt(res, rng, bts, tier):
                                 la, lb, bad[0], na, bad[1], nb, bad[3], repr(bad[2])[:200]))
                 return
         res.see('preempt-ok')
+    finally:
+        pre.uninstall()
+        PREEMPT_SPENT[0] += time.time() - t_start
+
+
+COLD_CALLS = ('encode-cer', 'encode-der', 'encode-ber', 'encode-native', 'decode-ber', 'decode-der', 'decode-cer')
+
+
+def cold_fn(label, bt, encs):
+    if label == 'encode-cer':
+        return lambda: cer_encoder.encode(bt.obj)
+    if label == 'encode-der':
+        return lambda: der_encoder.encode(bt.obj)
+    if label == 'encode-ber':
+        return lambda: ber_encoder.encode(bt.obj, defMode=False)
+    if label == 'encode-native':
+        return lambda: repr(native_encoder.encode(bt.obj))
+    dec = DECODERS[label.split('-')[1]]
+
+    def go():
+        d, rest = dec.decode(encs[label.split('-')[1]], asn1Spec=bt.schema)
+        return (bytes(rest), U.canon(bt.T, B.absval(d, bt.T)))
+    return go
+
+
+def arm_preempt_cold(res, rng, bts, tier):
+    """The same scheduler on objects nobody has used before: every schedule gets a freshly built schema and value, so
+    that whatever a type or a codec works out lazily on first use (tag maps, lookup tables, sort keys) is being worked
+    out by thread A when thread B arrives."""
+    from .. import monitors as M
+    if PREEMPT_SPENT[0] > float(os.environ.get('VERIF_C12_PREEMPT_BUDGET', 14.0 if tier == 'quick' else 240.0)):
+        return
+    t_start = time.time()
+    cap = 60 if tier == 'quick' else 400
+    cands = [bt for bt in bts if U.base_of(bt.T)[0] not in U.SIMPLE and not (HISTORY_ZONES & set(bt.feats))]
+    if not cands:
+        return
+    pre = M.Preempt(os.path.realpath(os.path.join(H.REPO, 'pyasn1')) + os.sep)
+    try:
+        pre.install()
+    except Exception as ex:
+        res.see('preempt-unavailable:' + type(ex).__name__)
+        return
+    try:
+        for _ in range(2 if tier == 'quick' else 6):
+            bt0 = rng.choice(cands)
+            T, v = bt0.T, bt0.v
+            if rng.random() < 0.7:
+                # a SET (or SEQUENCE) around an untagged CHOICE and tagged members in random tag order: the shape whose
+                # lookup tables, tag maps and sort keys the codecs have the most to work out about
+                nums = rng.sample(range(0, 12), 6)
+                alts = tuple(('a%d' % i, ('tag', 'I', 'C', nums[i], rng.choice([('int',), ('octs',), ('bool',)]))) for i in range(3))
+                T = (rng.choice(['set', 'set', 'seq']),
+                     (('m0', ('tag', 'I', 'C', nums[3], ('int',)), 'req', None), ('c', ('choice', alts), 'req', None),
+                      ('m1', ('tag', 'E', 'C', nums[4], ('octs',)), 'opt', None), ('m2', ('tag', 'I', 'C', nums[5], ('bool',)), 'def', False)))
+                if not U.is_legal(T):
+                    continue
+                v = U.gen_value(rng, T, C.opts_for('quick', rng), small=True)
+                bt0 = C.try_build(res, T, v)
+                if bt0 is None:
+                    continue
+                res.see('preempt-cold-pairs-on-a-set-around-a-choice')
+            try:
+                encs = {'ber': R.ber_variant(T, v, rng)[0], 'der': R.der(T, v), 'cer': R.cer(T, v)}
+            except Exception:
+                continue
+            la = rng.choice(COLD_CALLS)
+            # first-use races need both threads inside the same lazy computation: the same call twice, mostly
+            lb = la if rng.random() < 0.7 else rng.choice(COLD_CALLS)
+            # what the calls return, from a copy used sequentially
+            warm = C.try_build(res, T, v)
+            if warm is None:
+                continue
+            wa, wb = outcome2(cold_fn(la, warm, encs)), outcome2(cold_fn(lb, warm, encs))
+            if wa[0] != 'ok' or wb[0] != 'ok':
+                res.see('preempt-cold-pairs-skipped')
+                continue
+            fresh = C.try_build(res, T, v)
+            na, outa = pre.count(cold_fn(la, fresh, encs))
+            if outa != wa or not na:
+                res.see('preempt-cold-pairs-skipped')
+                continue
+            res.see('preempt-cold-pairs')
+            res.see('preempt-cold-pairs:%s+%s' % (la, lb))
+            ks = list(range(1, na + 1)) if na <= cap else sorted(rng.sample(range(1, na + 1), cap))
+            for k in ks:
+                fresh = C.try_build(res, T, v)
+                ra, rb, info = pre.run(cold_fn(la, fresh, encs), cold_fn(lb, fresh, encs), k, None)
+                if info == 'timeout':
+                    res.inconclusive.append('a preemption schedule did not finish within its watchdog')
+                    return
+                res.see('preempt-cold-schedules')
+                if ra != wa or rb != wb:
+                    res.witness('preempted-first-use-differs:%s+%s' % (la.split('-')[0], lb.split('-')[0]),
+                                set(bt0.feats) | {'arm:preempt-cold'}, ('c12-preempt-cold', T, v, la, lb),
+                                'A=%s stopped at line event %d of %d on objects never used before, B=%s: %s' % (
+                                    la, k, na, lb, repr(ra if ra != wa else rb)[:200]))
+                    return
+        res.see('preempt-cold-ok')
     finally:
         pre.uninstall()
         PREEMPT_SPENT[0] += time.time() - t_start
@@ -1053,6 +1152,7 @@ def run_shard(shard, tier, seed):
                 saved = PREEMPT_SPENT[0]
                 arm_preempt(res, rng, block[:5], tier)
                 arm_preempt(res, rng, block[5:] or block, tier)
+                arm_preempt_cold(res, rng, block, tier)
                 PREEMPT_SPENT[0] = saved
         except Exception:
             res.see('harness:error')
@@ -1104,6 +1204,8 @@ def run_shard(shard, tier, seed):
                         arm_threads(res, rng, pool)
                     if i % 10 == 9:
                         arm_preempt(res, rng, pool, tier)
+                    if i % 10 == 4:
+                        arm_preempt_cold(res, rng, pool, tier)
                     pool = []
                 if len(res.samples) < 3:
                     res.sample(C.sample_of(T, v, arms=['history', 'aliasing', 'logging', 'interleave', 'threads']))
